@@ -141,6 +141,14 @@ def one_world(args):
         if cfg["raw_mode"] and not real_z:
             # send_raw cuts a frame at 4096 bytes; the real zlib then refuses the cut image, the transparent test compression would not
             sizes = [n for n in sizes if n <= 3000]
+        if scenario == "silence":
+            # nothing gets through in either direction any more: the client must give up when its 60 s are over (and not before); no delivery
+            # requirement - this run is for the model comparison (the exact second of the give-up, the last pings)
+            f = frame_to_server_side(rng, 100); sent_c.append((w.ms, f)); w.offer_to_client(f)
+            w.f_drop, w.f_dup, w.f_delay, w.faulty_until = 1.0, 0.0, 0, w.ms + 10 ** 9
+            w.run_until(lambda: w.c_ret is not None, 90000)
+            out["silence_ms"] = w.ms - t0
+            nframes = 0
         if scenario == "blackout":
             # every datagram in ONE direction is lost while `n` packets are offered on the sending side (each is given up after its resends), for
             # less than the 60 s session timeout; then the path is clean and six packets are offered one after the other
@@ -217,7 +225,8 @@ def one_world(args):
                 g = frame_to_client(rng, rng.choice([20, 600])); late_s.append((w.ms, g)); sent_s.append((w.ms, g)); w.offer_to_server(g)
                 w.settle(20000)
             out["late_c"], out["late_s"] = late_c, late_s
-        w.settle(30000)
+        if scenario != "silence":
+            w.settle(30000)
     out["sent_c"], out["sent_s"] = sent_c, sent_s
     out["accepted_c"], out["accepted_s"] = w.accepted_c, w.accepted_s
     fs = [s_.slots[0]["fs"] for s_ in w.s.steps[-50:] if s_.slots and 0 in s_.slots]
